@@ -45,6 +45,50 @@ def generate(seed, tier):
     sc = workload.pair_scenario(seed, PROP, o)
     ca, cb = sc['nodes']['A']['conf']['to-b'], sc['nodes']['B']['conf']['to-a']
     fam = sc['meta']['family']
+    if r.random() < 0.12:
+        # batch 'nested': both ends list a small entry in front of a larger one that contains it (same mode, protocol, suite); a CHILD_SA for
+        # traffic of the larger entry outside the smaller one is created by one end and rekeyed by either end, several times: every policy
+        # lookup made for the rekey meets the smaller entry first, and the selectors must stay those of the replaced CHILD_SA
+        nets = {4: (('10.1.1.0/24', '10.2.2.0/24'), ('10.1.0.0/16', '10.2.0.0/16')), 6: (('fd00:1:1::/48', 'fd00:2:2::/48'), ('fd00:1::/32', 'fd00:2::/32'))}[fam]
+        base_a, base_b = dict(ca['protect'][0]), dict(cb['protect'][0])
+        pa, pb_ = [], []
+        for i, (na, nb) in enumerate(nets):
+            ea, eb = dict(base_a, mode='tunnel', my_subnet=na, peer_subnet=nb, index=301 + i), dict(base_b, mode='tunnel', my_subnet=nb, peer_subnet=na, index=401 + i)
+            for e in (ea, eb):
+                e['lifetime'] = 600
+                for k in ('my_port', 'peer_port'):
+                    e.pop(k, None)
+                e['ip_proto'] = 'any'
+            pa.append(ea)
+            pb_.append(eb)
+        who = r.choice('AB')
+        other = 'B' if who == 'A' else 'A'
+        shape = r.choice(['one_side', 'one_side', 'both'])
+        if shape == 'one_side':
+            # only the end that creates the CHILD_SA lists the small entry (in front); the other end knows the large one only and answers with it,
+            # so the CHILD_SA has the large selectors and the creator later meets its small entry first when the peer rekeys
+            if who == 'A':
+                pb_ = pb_[1:]
+            else:
+                pa = pa[1:]
+        ca['protect'], cb['protect'] = pa, pb_
+        ents = next(iter(configs.read_conf(sc['nodes'][who]['conf']).values()))['protect']
+        big, small = ents[-1], ents[0]
+        for _ in range(20):
+            flow = configs.flow_for_entry(r, None, None, big)
+            if ipaddress.ip_address(flow['saddr']) not in small['my_net'] or ipaddress.ip_address(flow['daddr']) not in small['peer_net']:
+                break
+        ops = [op for op in sc['ops'] if op['op'] == 'start']
+        ops.append({'t': 1.0, 'op': 'packet', 'node': who, 'flow': flow, 'entry': len(ents) - 1})
+        t = 2.5
+        for k in range(r.randint(2, 4)):
+            ops.append({'t': round(t, 3), 'op': 'expire', 'node': other if k == 0 else r.choice('AB'), 'which': 0, 'dir': r.choice(['in', 'out']), 'hard': 0})
+            t += r.choice([1.5, 2.5])
+        sc['ops'] = ops
+        sc['until'] = sc['quiet_from'] = round(t + 3.0, 3)
+        sc['meta']['nested_shape'] = shape
+        sc['meta']['relation'] = 'nested'
+        return sc
     rel = r.choice(['equal', 'equal', 'a_wider', 'b_wider', 'overlap', 'disjoint', 'mode', 'proto_any', 'port'])
     for pb in cb['protect']:
         if rel == 'mode':
